@@ -699,7 +699,8 @@ HandleElementResult QXmppOutgoingClient::handleElement(const QDomElement &nodeRe
     // If TLS is required, only stream features and stream errors are processed until the stream is
     // encrypted: stanzas are neither passed to extensions nor answered in clear text.
     if (d->config.streamSecurityMode() == QXmppConfiguration::TLSRequired && !socket()->isEncrypted() &&
-        !QXmppStreamFeatures::isStreamFeatures(nodeRecv) && nodeRecv.namespaceURI() != ns_stream) {
+        !QXmppStreamFeatures::isStreamFeatures(nodeRecv) &&
+        !(nodeRecv.namespaceURI() == ns_stream && nodeRecv.tagName() == u"error")) {
         return Rejected;
     }
 
